@@ -52,23 +52,31 @@ let show_events tag (show_head : 'h -> string) (evs : ('h, (n list * n list list
   let last_is_end = (match List.rev evs with AEnd :: _ -> true | _ -> false) in
   let first_is_head = (match evs with AHead _ :: _ -> true | _ -> false) in
   if errs <> [] then Printf.sprintf "%s.error=%s" tag (String.concat "," errs) else
-  Printf.sprintf "%s %s.b=%s %s.t=%s %s.e=%d %s.x=%s"
+  if not (ends = 1 && last_is_end) then Printf.sprintf "%s.error=ends%d" tag ends else
+  (* `again`: what one more recv_data says after the end of the message.  The event list ends with the end of the
+     message (checked just above); the API contract is that the end is then reported again - a constant of the
+     specification, printed so that the implementation's probe is compared with it *)
+  Printf.sprintf "%s %s.b=%s %s.t=%s %s.e=%d %s.again=none"
     (match heads with [h] when first_is_head -> show_head h | _ -> Printf.sprintf "%s.heads=%d" tag (List.length heads))
     tag (show_body body)
     tag (match trl with [] -> "n" | [t] -> show_groups t | _ -> "many")
-    tag bends
-    tag (if ends = 1 && last_is_end then "none" else Printf.sprintf "ends%d" ends)
+    tag bends tag
 (* what the server application reads off the delivered http::Request of the C12 model *)
+let bytes_of_string s = List.init (String.length s) (fun i -> n_of_int (Char.code s.[i]))
+(* ext.rs Protocol variants in declaration order, with their as_str() *)
+let proto_names = ["webtransport"; "connect-udp"; "connect-ip"; "websocket"]
+let proto_of_opt = function "wt" -> 0 | "udp" -> 1 | "ip" -> 2 | "ws" -> 3 | _ -> failwith "proto"
 let show_h3_req (r : request) =
   let u = r.rq_uri in
-  Printf.sprintf "q.m=%s q.s=%s q.a=%s q.p=%s q.h=%s" (hex_of_bytes r.rq_method) (show_opt (uri_scheme_str u))
+  Printf.sprintf "q.m=%s q.s=%s q.a=%s q.p=%s q.proto=%s q.h=%s" (hex_of_bytes r.rq_method) (show_opt (uri_scheme_str u))
     (show_opt (uri_authority u))
     (match uri_path_and_query u with None -> "-" | Some q -> show_opt (Some (pq_as_str q)))
+    (match r.rq_protocol with None -> "-" | Some k -> hex_of_bytes (bytes_of_string (List.nth proto_names (int_of_n k))))
     (show_groups r.rq_headers)
 let show_h3_resp (w : response) = Printf.sprintf "r.st=%s r.h=%s" (string_of_n w.rs_status) (show_groups w.rs_headers)
 let show_req (v : req_seen) =
-  Printf.sprintf "q.m=%s q.s=%s q.a=%s q.p=%s q.h=%s" (hex_of_bytes v.v_method) (show_opt v.v_scheme)
-    (show_opt v.v_authority) (show_opt v.v_path) (show_groups v.v_fields)
+  Printf.sprintf "q.m=%s q.s=%s q.a=%s q.p=%s q.proto=%s q.h=%s" (hex_of_bytes v.v_method) (show_opt v.v_scheme)
+    (show_opt v.v_authority) (show_opt v.v_path) (show_opt v.v_protocol) (show_groups v.v_fields)
 let show_resp (w : resp_seen) = Printf.sprintf "r.st=%s r.h=%s" (string_of_n w.w_status) (show_groups w.w_fields)
 
 (* ---- transport behaviour derived from the case line ---- *)
@@ -82,47 +90,88 @@ let amounts policy count =
     List.init count (fun _ -> n_of_int (1 + next () mod m)) end
   else let k = int_of_string p in List.init count (fun _ -> n_of_int k)
 
+let find_opt key rest = List.fold_left (fun acc w ->
+  let k = String.length key in
+  if String.length w >= k && String.sub w 0 k = key then Some (String.sub w k (String.length w - k)) else acc) None rest
+
+(* one exchange: (model, spec) without the leading status word; Error text when the sender refuses the request *)
+let exchange msg resp ~wire ~budget ~grease ~proto ~interim =
+  match String.split_on_char ',' msg, String.split_on_char ',' resp with
+  | [m; s; a; p; f; b; t], [st; rf; rb; rt] ->
+      let q = { q_method = bytes_of_hex m; q_scheme = opt_hex s; q_authority = opt_hex a; q_path = opt_hex p;
+                q_protocol = (match proto with Some k -> Some (bytes_of_string (List.nth proto_names k)) | None -> None);
+                q_fields = parse_fields f } in
+      let qm = { m_head = q; m_pieces = parse_body b; m_trailers = (if t = "n" then None else Some (parse_fields t)) } in
+      let r : resp_head = { rp_status = n_of_string st; rp_fields = parse_fields rf } in
+      let rm = { m_head = r; m_pieces = parse_body rb; m_trailers = (if rt = "n" then None else Some (parse_fields rt)) } in
+      if not (request_wf q) then Error "c.send_request" else
+      (match mk_uri q.q_scheme q.q_authority q.q_path with
+       | None -> Error "model-uri"
+       | Some u ->
+      let hq = { cq_method = q.q_method; cq_uri = u; cq_fields = mk_hmap q.q_fields;
+                 cq_ext = (match proto with Some k -> Some (n_of_int k) | None -> None) } in
+      let hqm = { m_head = hq; m_pieces = qm.m_pieces;
+                  m_trailers = (match qm.m_trailers with None -> None | Some t -> Some (mk_hmap t)) } in
+      let hrm = { m_head = { cp_status = r.rp_status; cp_fields = mk_hmap r.rp_fields }; m_pieces = rm.m_pieces;
+                  m_trailers = (match rm.m_trailers with None -> None | Some t -> Some (mk_hmap t)) } in
+      (* the grease value is h3's random choice; the outcome must not depend on it *)
+      let g () = if grease then Some (n_of_int (next () mod 1000000)) else None in
+      (* the WriteBuf model recomputes remaining() at every write: keep (script steps) x (body size) bounded *)
+      let steps m = let total = List.fold_left (fun a p -> a + List.length p) 0 m.m_pieces in
+                    max 16 (min 2048 (1_000_000 / (total + 1))) in
+      let run_q = h3_request_outcome (g ()) hqm (amounts budget (steps hqm)) (amounts wire 256)
+                    (List.init 256 (fun _ -> n_of_int (next () mod 3))) in
+      (* the server's first finished request also carries a grease frame when grease is on *)
+      let run_r = h3_response_outcome (g ()) hrm (amounts budget (steps hrm)) (amounts wire 256)
+                    (List.init 256 (fun _ -> n_of_int (next () mod 3))) in
+      let model = (match run_q, run_r with
+        | Some eq, Some er -> show_events "q" show_h3_req eq ^ " " ^ interim ^ " " ^ show_events "r" show_h3_resp er
+        | None, _ -> "model-send-request"
+        | _, None -> "model-send-response") in
+      let spec = show_events "q" show_req (expected_events norm_request norm_trailers qm) ^ " " ^ interim ^ " "
+                 ^ show_events "r" show_resp (expected_events norm_response norm_trailers rm) in
+      Ok (model, spec))
+  | _ -> failwith "bad-message"
+
+let set_seed sched = rng := 1 + (int_of_string (String.sub sched 1 (String.length sched - 1))) land 0xFFFFFF
+
 let handle ws = match ws with
   | "e2e" :: msg :: resp :: wire :: budget :: sched :: split :: rest ->
-      let msg = String.split_on_char ',' (arg msg "msg=") and resp = String.split_on_char ',' (arg resp "resp=") in
       let wire = arg wire "wire=" and budget = arg budget "budget=" and sched = arg sched "sched=" in
       let _ = arg split "split=" in
-      let grease = (match rest with [g] -> arg g "grease=" = "1" | _ -> false) in
-      rng := 1 + (int_of_string (String.sub sched 1 (String.length sched - 1))) land 0xFFFFFF;
-      (match msg, resp with
-       | [m; s; a; p; f; b; t], [st; rf; rb; rt] ->
-           let q = { q_method = bytes_of_hex m; q_scheme = opt_hex s; q_authority = opt_hex a; q_path = opt_hex p;
-                     q_fields = parse_fields f } in
-           let qm = { m_head = q; m_pieces = parse_body b; m_trailers = (if t = "n" then None else Some (parse_fields t)) } in
-           let r : resp_head = { rp_status = n_of_string st; rp_fields = parse_fields rf } in
-           let rm = { m_head = r; m_pieces = parse_body rb; m_trailers = (if rt = "n" then None else Some (parse_fields rt)) } in
-           if not (request_wf q) then "err c.send_request | err c.send_request" else begin
-           (match mk_uri q.q_scheme q.q_authority q.q_path with
-            | None -> "err model-uri | err model-uri"
-            | Some u ->
-           let hq = { cq_method = q.q_method; cq_uri = u; cq_fields = mk_hmap q.q_fields; cq_ext = None } in
-           let hqm = { m_head = hq; m_pieces = qm.m_pieces;
-                       m_trailers = (match qm.m_trailers with None -> None | Some t -> Some (mk_hmap t)) } in
-           let hrm = { m_head = { cp_status = r.rp_status; cp_fields = mk_hmap r.rp_fields }; m_pieces = rm.m_pieces;
-                       m_trailers = (match rm.m_trailers with None -> None | Some t -> Some (mk_hmap t)) } in
-           (* the grease value is h3's random choice; the outcome must not depend on it *)
-           let g () = if grease then Some (n_of_int (next () mod 1000000)) else None in
-           (* the WriteBuf model recomputes remaining() at every write: keep (script steps) x (body size) bounded *)
-           let steps m = let total = List.fold_left (fun a p -> a + List.length p) 0 m.m_pieces in
-                         max 16 (min 2048 (1_000_000 / (total + 1))) in
-           let run_q = h3_request_outcome (g ()) hqm (amounts budget (steps hqm)) (amounts wire 256)
-                         (List.init 256 (fun _ -> n_of_int (next () mod 3))) in
-           (* the server's first finished request also carries a grease frame when grease is on *)
-           let run_r = h3_response_outcome (g ()) hrm (amounts budget (steps hrm)) (amounts wire 256)
-                         (List.init 256 (fun _ -> n_of_int (next () mod 3))) in
-           let model = (match run_q, run_r with
-             | Some eq, Some er -> "ok " ^ show_events "q" show_h3_req eq ^ " " ^ show_events "r" show_h3_resp er
-             | None, _ -> "err model-send-request"
-             | _, None -> "err model-send-response") in
-           let spec = "ok " ^ show_events "q" show_req (expected_events norm_request norm_trailers qm) ^ " "
-                      ^ show_events "r" show_resp (expected_events norm_response norm_trailers rm) in
-           model ^ " | " ^ spec) end
-       | _ -> "driver-error bad-message")
+      let grease = (find_opt "grease=" rest = Some "1") in
+      let proto = (match find_opt "proto=" rest with Some p -> Some (proto_of_opt p) | None -> None) in
+      (* an interim response is not part of the modelled pipeline (one head per message): what the client must be shown
+         of it is the identity on the case line, in both columns *)
+      let interim = (match find_opt "interim=" rest with
+        | None -> "r.i=-"
+        | Some v -> (match String.index_opt v ',' with
+            | Some i -> let st = String.sub v 0 i and fs = String.sub v (i + 1) (String.length v - i - 1) in
+                        "r.i=" ^ st ^ ":" ^ show_groups (group_fields (parse_fields fs))
+            | None -> failwith "interim")) in
+      set_seed sched;
+      (match exchange (arg msg "msg=") (arg resp "resp=") ~wire ~budget ~grease ~proto ~interim with
+       | Ok (m, s) -> "ok " ^ m ^ " | ok " ^ s
+       | Error e -> "err " ^ e ^ " | err " ^ e)
+  (* several exchanges on one connection: each one is the same pipeline; how the SendRequest handles are cloned and
+     dropped must not matter (mode), except `dh`: dropping the only handle closes the connection with H3_NO_ERROR *)
+  | "multi" :: rest ->
+      let get k = match find_opt k rest with Some v -> v | None -> failwith ("expected " ^ k) in
+      let mode = get "mode=" and n = int_of_string (get "n=") in
+      let wire = get "wire=" and budget = get "budget=" in
+      let grease = (find_opt "grease=" rest = Some "1") in
+      set_seed (get "sched=");
+      if mode = "dh" then "ok dh c.driver=c:256 | ok dh c.driver=c:256" else begin
+      let parts = List.init n (fun k ->
+        let v = get (Printf.sprintf "x%d=" k) in
+        match String.index_opt v '|' with
+        | None -> failwith "exchange"
+        | Some i ->
+            (match exchange (String.sub v 0 i) (String.sub v (i + 1) (String.length v - i - 1))
+                     ~wire ~budget ~grease ~proto:None ~interim:"r.i=-" with
+             | Ok (m, s) -> (Printf.sprintf "x%d: %s" k m, Printf.sprintf "x%d: %s" k s)
+             | Error e -> (Printf.sprintf "x%d: err %s" k e, Printf.sprintf "x%d: err %s" k e))) in
+      "ok " ^ String.concat " " (List.map fst parts) ^ " | ok " ^ String.concat " " (List.map snd parts) end
   | _ -> "driver-error unknown-case"
 (* the extracted functions are not tail recursive and work on long lists: a large minor heap keeps the GC out of the way *)
 let () = Gc.set { (Gc.get ()) with Gc.minor_heap_size = 8 * 1024 * 1024; Gc.space_overhead = 400 }
